@@ -8,7 +8,7 @@ sys.path.insert(0, os.path.join(os.path.dirname(os.path.dirname(os.path.abspath(
 import gen_samples as G  # noqa
 
 PROP = "C02"
-SUBCHECKS = ["C02B"]   # the whole-archive spec decoder (coq/spec/AgcV3.v, props/C02B.v, checks/c02b.py)
+SUBCHECKS = ["C02B", "C02S"]   # whole-archive spec decoder (props/C02B.v); strict mode accepts every written file (props/C02S.v)
 AREAS = ["groupstore"]
 THEOREMS = ["consts_writer_eq_reader", "consts_eq_spec", "store_then_get", "every_segment_registered", "run_no_trap",
             "rounds_irrelevant", "step_on_nothing_is_noop", "one_ref_part", "delta_addressing", "raw_addressing",
